@@ -34,11 +34,39 @@ def run_mode(ck, build, kinds, rulemap, helper_fns=True, floor_obl=300):
         for ks in ("128", "192", "256"):
             n += aeadlib.check_setup(ck, mod, ks, label, rulemap)
             n += aeadlib.check_gentag(ck, mod, ks, label, rulemap)
-            n += aeadlib.check_absorb(ck, mod, ks, label, rulemap)
+            ab_broken = None
+            if "SMALL" in rulemap:
+                try:
+                    n += aeadlib.check_absorb_small(ck, mod, ks, label, rulemap)
+                except Broken as e:
+                    ab_broken = e
+            try:
+                n += aeadlib.check_absorb(ck, mod, ks, label, rulemap)
+            except Broken as e:
+                if not ck.violations:
+                    raise
+                ck.note("per-class rule not decided for tinyjambu_absorb_%s: %s" % (ks, str(e)[:200]))
     fns = aeadlib.cipher_fns(mod, kinds)
     ck.floor("MODE", "cipher entry points analysed", len(fns), 6 * len(kinds))
     for f in fns:
-        n += aeadlib.check_cipher(ck, mod, f, label, rulemap)
+        small_broken = None
+        if "SMALL" in rulemap or "SMALLIO" in rulemap:
+            # shape-independent: every message length up to 40 as straight paths (refutes whatever the loops look like)
+            try:
+                n += aeadlib.check_cipher_small(ck, mod, f, label, rulemap)
+            except Broken as e:
+                small_broken = e
+        nviol = len(ck.violations)
+        try:
+            n += aeadlib.check_cipher(ck, mod, f, label, rulemap)
+        except Broken as e:
+            if not ck.violations:
+                raise
+            # the small-length rule (or a rule on another function) has refuted concrete cases; that the per-class rule does not follow this code's shape does not take them back
+            ck.note("per-class rule not decided for %s: %s" % (f.name, str(e)[:200]))
+            continue
+        if small_broken is not None:
+            ck.note("small-length rule not decided for %s: %s" % (f.name, str(small_broken)[:200]))
     ck.floor("MODE", "obligations over path summaries", len(ck.obligations), floor_obl)
     return mod, fns, n
 
